@@ -114,7 +114,7 @@ static void op_MnNonceGen(const jv *in, jout *out) {
         mn_is(in, "secnonce_null") ? NULL : &MN.obj[o],
         mn_is(in, "pubnonce_null") ? NULL : &pn,
         mn_is(in, "rand_null") ? NULL : MN.buf[b],
-        mn_is(in, "seckey_invalid") ? badsk : MN.sk[k],
+        mn_is(in, "seckey_invalid") ? badsk : (mn_is(in, "seckey_other") ? MN.sk[(k + 1) % MN.nkey] : MN.sk[k]),
         mn_is(in, "pubkey_null") ? NULL : (mn_is(in, "pubkey_invalid") ? &badpk : &MN.pk[k]),
         MN.msg,
         mn_is(in, "cache_bad") ? &badcache : &MN.cache[k],
@@ -148,7 +148,7 @@ static void op_MnPartialSign(const jv *in, jout *out) {
     if (mn_class(&MN.obj[o])[0] == 'l')
         for (i = 0; i < MN.nids; i++) if (!memcmp(MN.kbytes[i], &MN.obj[o].data[4], 64)) id = i;
     if (id >= 0) { sess = &MN.session[id]; ckey = MN.idkey[id]; }
-    memset(&sig, 0, sizeof(sig));
+    memset(&sig, 0, sizeof(sig));      /* "produces no signature": a failed call must leave the (all-zero) output object all-zero */
     ret = secp256k1_musig_partial_sign(CTX,
         mn_is(in, "out_null") ? NULL : &sig,
         mn_is(in, "secnonce_null") ? NULL : &MN.obj[o],
@@ -160,7 +160,7 @@ static void op_MnPartialSign(const jv *in, jout *out) {
         for (i = 0; i < MN.nids; i++)
             if (secp256k1_musig_partial_sig_verify(CTX, &sig, &MN.pubnonce[i], &MN.pk[MN.idkey[i]], &MN.cache[MN.idkey[i]], &MN.session[i])) sigfor = i + 1;
     }
-    jo_int(out, "ret", ret); jo_int(out, "sigfor", sigfor); mn_projection(out);
+    jo_int(out, "ret", ret); jo_int(out, "sigfor", sigfor); jo_int(out, "sigzero", secp256k1_is_zero_array((unsigned char*)&sig, sizeof(sig))); mn_projection(out);
 }
 #define VH_OPS_MUSIGNONCE \
     { "MnSetup", op_MnSetup }, { "MnFillRand", op_MnFillRand }, { "MnScribble", op_MnScribble }, \
